@@ -5,6 +5,7 @@ from common import STATEX_ASSUME, splice_qbft
 
 CHECK = dict(
     pkgs=["core/qbft"],
+    files={"core/qbft": ["zz_verif_c02_test.go", "zz_verif_hook.go"]},
     libs=["enumx"],
     splice={"core/qbft/qbft.go": splice_qbft},
     run="TestVerifC03",
